@@ -140,6 +140,31 @@ Theorem C02_openmp_schedule_independent :
 Proof. exact openmp_any_chunksize. Qed.
 Print Assumptions C02_openmp_schedule_independent.
 
+(** ... end to end with the threads of the parallel regions ([schedule="dynamic", chunksize=1]: an idle thread
+    takes the next part atomically; one region and one barrier per chunk file; one schedule per region) *)
+Theorem C02_openmp_workers_end_to_end :
+  forall (R : Type) (rO rI : R) (radd rmul rsub : R -> R -> R) (ropp : R -> R),
+    ring_theory rO rI radd rmul rsub ropp (@eq R) ->
+  forall p n_cues all chunk files n_threads scheds m o c,
+    (0 <= n_cues < two32)%Z -> NoDup all -> Forall oko32 all ->
+    (1 <= chunk)%Z -> (Z.of_nat (length all) + chunk <= two32)%Z ->
+    Forall (cues_ok (okc_n n_cues)) files -> (1 <= n_threads)%nat ->
+    files_done (omp_parts all chunk) n_threads files scheds ->
+    oko32 o -> okc_n n_cues c ->
+    kget R rO n_cues (run_files R rO radd rmul rsub (kstore R) (kget R rO n_cues) (kset R n_cues) p
+                                (omp_parts all chunk) files
+                                (file_traces (omp_parts all chunk) n_threads files scheds) m) o c =
+    if mem_z o all then learn R rO rI radd rmul rsub p (concat files) (kget R rO n_cues m) o c
+    else kget R rO n_cues m o c.
+Proof. exact openmp_workers_any_schedule. Qed.
+Print Assumptions C02_openmp_workers_end_to_end.
+
+(** non-vacuity: two chunk files, three parts, two threads; both regions end *)
+Example C02_openmp_regions_end :
+  files_done (omp_parts [5%Z; 6%Z; 7%Z] 1) 2 [[([1%Z], [5%Z])]; [([2%Z], [6%Z]); ([1%Z], [7%Z])]]
+             [concat (repeat [0; 1]%nat 30); concat (repeat [1; 0]%nat 30)].
+Proof. vm_compute. repeat split; reflexivity. Qed.
+
 (** non-vacuity: a real interleaving of two work items *)
 Example C02_interleaving_exists :
   interleaving (map (fun part => item_actions part [([1%Z], [5%Z])]) (slice_list [5%Z; 6%Z; 7%Z] 2))
